@@ -51,6 +51,16 @@ CHECKS = {
         note=("Assumed: copy.deepcopy (A-COPY), threading.RLock (A-RLOCK), no foreign writer of dispatch_table[ModuleType] during "
               "a copy, asynchronous exceptions not modelled; no schedule is enumerated - the thread stress run is a bounded "
               "replay aid only.")),
+    "C12": dict(
+        category="proof", design_ref="DESIGN.md section 8 (C12)",
+        text=("spec_property.__get__/__set__/__delete__ and classproperty.__get__/__set__/__delete__ are symbolically executed "
+              "from the current source with every option flag symbolic (all 16 combinations in one proof each); the "
+              "postconditions are the override / cache / getter protocol of the statement, including 'getter called exactly once / "
+              "not at all' via a ghost call log, the preparer + type check on spec classes, and 'a failing operation changes "
+              "nothing'; all obligations discharged by z3. The composition into arbitrary interleavings (three-state machine) and "
+              "option propagation through .getter/.setter/.deleter are executed by a labelled bounded stand-in."),
+        note=("Assumed: callbacks pure (A-CB), metadata shape (A-META), prepare_attr_value / check_type through their contracts; "
+              "bounded stand-in: sequences <= 3/4 over 16 option combinations.")),
 }
 
 NA = {
